@@ -27,6 +27,11 @@ def run(ck, progs):
     ck.config = None
 
 
+def SYNC_HELPER(caller, callee):
+    """local helpers of the `sync` module (the statements of the handshake may live in them)"""
+    return callee.crate == caller.crate and "::sync::" in callee.key
+
+
 def static_of(fn, op):
     st = fn.origin(op)
     if st and st[-1][0] == "const":
@@ -43,7 +48,7 @@ def c18a(ck, prog):
     fs = [f for f in prog.fns.values() if f.name == "poll" and "UntilInterrupt" in f.key]
     if len(fs) != 1:
         raise AnchorLost("UntilInterrupt::poll not found")
-    f = fs[0]
+    f = prog.inlined(fs[0], 2, SYNC_HELPER)
     loads = [c for c in f.calls() if c.name == "load" and static_of(f, c.args[0]) == "CATCH"]
     pubs = [c for c in f.calls() if c.name in ("swap", "store", "lock", "compare_exchange") and static_of(f, c.args[0]) == "WAKER"]
     ck.ob(R, "poll:anchors", bool(loads) and bool(pubs), f.loc(None), "" if loads and pubs else "UntilInterrupt::poll has %d reads of CATCH and %d publications to WAKER" % (len(loads), len(pubs)), how="%d CATCH.load, %d WAKER publication(s)" % (len(loads), len(pubs)), nontrivial=False)
@@ -75,9 +80,16 @@ def c18a(ck, prog):
     # handler: CATCH.store before the waker is taken
     new = prog.method(r"ohkami::sync::CtrlC$", "new")
     handlers = [g for g in prog.descendants(new.key)]
+    # a named function handed to set_handler instead of a closure literal
+    for c in new.calls():
+        if c.name in ("set_handler", "try_set_handler") and c.args:
+            st = new.origin(c.args[0])
+            if st and st[-1][0] == "const" and st[-1][1].get("fn") and prog.fns.get(st[-1][1]["fn"]) is not None:
+                handlers.append(prog.fns[st[-1][1]["fn"]])
+    handlers = [prog.inlined(g, 2, SYNC_HELPER) for g in handlers]
     hs = [g for g in handlers if any(c.name == "store" and static_of(g, c.args[0]) == "CATCH" for c in g.calls())]
     if len(hs) != 1:
-        raise AnchorLost("signal handler closure not found")
+        raise AnchorLost("signal handler not found (closure or function handed to set_handler that stores CATCH)")
     h = hs[0]
     st = [c for c in h.calls() if c.name == "store" and static_of(h, c.args[0]) == "CATCH"][0]
     take = [c for c in h.calls() if c.name in ("swap", "lock", "load", "take") and static_of(h, c.args[0]) == "WAKER"]
